@@ -323,8 +323,9 @@ func (a *Agent) sender() {
 // Sends a batch using the gossip network reliable transport
 // to  other nodes based on the routing policy applied
 func (a *Agent) Send(msg *Message) {
-	// if ttl is 0, the message dies here
-	if msg.TTL == 0 {
+	// if ttl is exhausted (a decoded message may even carry a negative
+	// one), the message dies here
+	if msg.TTL <= 0 {
 		return
 	}
 
